@@ -191,6 +191,22 @@ theorem handshake_seq_counter_total (k s0 : Nat) (b : Buf) (n : Nat) (site : Str
     Dtls.seqRun k s0 b n ≠ .panic site :=
   safe_noPanic (Dtls.seqRun_safe k s0 b n hs) site
 
+/-- **dtls_reassembly_bounded**: for every history of decoded handshake messages (any types, sequence numbers,
+fragment offsets and lengths, on client or server, including the post-HelloVerifyRequest re-sync), the acceptance /
+fragment-reassembly bookkeeping of `process_handshake_payload` never panics, keeps `recv_message_seq` inside u16
+(exhaustion aborts the handshake) and keeps the reassembly buffer below 2^24 bytes — a peer cannot make
+`incomplete_handshake` grow without bound. (Tied to the code by reading + the live-endpoint exploration.) -/
+theorem dtls_reassembly_bounded (isClient : Bool) (ms : List Dtls.HsMsg) (b : Buf) (n : Nat) (site : String)
+    (hm : ∀ m ∈ ms, m.seq ≤ 65535 ∧ m.total < 16777216) :
+    Dtls.onMessages isClient {} ms b n ≠ .panic site ∧
+    ∀ c b' n', Dtls.onMessages isClient {} ms b n = .ok c b' n' → c.recvSeq ≤ 65535 ∧ c.incLen < 16777216 := by
+  have h := Dtls.onMessages_safe isClient ms {} b n (by unfold Dtls.HsCtx.Ok; decide) hm
+  refine ⟨safe_noPanic h site, ?_⟩
+  intro c b' n' hr
+  unfold safe at h
+  rw [hr] at h
+  exact h
+
 /-- witness kept visible: the pre-fix `recv_message_seq += 1` panics at 65535 with overflow checks and wraps to 0
 (accepting old sequence numbers again) without. -/
 theorem handshake_seq_counter_unfixed_witness :
